@@ -490,6 +490,7 @@ func groupNoCopy() {
 	for _, tag := range []string{"`thrift:\"T4,4,required\" frugal:\",,,nocopy\"`", "`frugal:\"5,default,\"`",
 		"`frugal:\"6,default, string , nocopy \"`", "`frugal:\"7,default,,\"`", "`frugal:\"8,required, ,nocopy\"`"} {
 		x := newStruct("nocopy")
+		x.Accept = false // not used by the value streams: only resolved (C12 / C13), accepted or not
 		x.addRaw("T", prim("string"), tag[1:len(tag)-1], int(tag[strings.IndexAny(tag, "45678")]-'0'), true)
 		x.addRaw("B", binary(), `frugal:"20,default,binary,nocopy"`, 20, true)
 	}
